@@ -414,7 +414,7 @@ def files_scope(res, pid, rng, tier):
         if a_ != b_:
             fails.append({"kind": "command line and directory API produce different content", "argv": cli_argv(rcfg, "<in>", "<out>"), "input": rfiles["a.cfg"].decode(),
                           "directory_api": (a_.get("a.cfg") or b"<missing>").decode("utf-8", "replace"), "command_line": (b_.get("a.cfg") or b"<missing>").decode("utf-8", "replace")})
-        cfiles = {"netconan.cfg": b"anonymize-ips = true\n", ".netconan.cfg": b"anonymize-ips = true\n", "r.cfg": b"ip address 11.22.33.44 255.255.255.0\nusername b password other1zz\n"}
+        cfiles = {"netconan.cfg": b"anonymize-ips = true\n", ".netconan.cfg": b"anonymize-ips = true\n", "r.cfg": b"ip address 11.22.33.44 255.255.255.0\nusername b password fresh2yyq\n"}
         write_tree(os.path.join(d, "tree"), cfiles)
         write_tree(os.path.join(d, "home"), {".netconan.cfg": b"anonymize-ips = true\n", "netconan.cfg": b"anonymize-ips = true\n"})
         ccfg = fa.FaCfg(salt="demoSalt", pwd=True, b4=8, b6=8)
@@ -435,6 +435,13 @@ def files_scope(res, pid, rng, tier):
                 os.environ["HOME"] = home0
         res.evaluations += 2
         a_, b_ = read_tree(os.path.join(d, "c1")), (read_tree(os.path.join(d, "c2")) if os.path.isdir(os.path.join(d, "c2")) else {})
+        want_r = b"ip address 11.22.33.44 255.255.255.0\nusername b password netconanRemoved0\n"
+        for nm_, t_ in (("directory API", a_), ("command line", b_)):
+            if t_.get("r.cfg") != want_r:
+                fails.append({"kind": "a run's output depends on an earlier run in this process (same salt): the first secret of a run is not numbered 0", "entry_point": nm_,
+                              "earlier_run": {"salt": "demoSalt", "input": rfiles["a.cfg"].decode()}, "salt": "demoSalt", "input": cfiles["r.cfg"].decode(),
+                              "output": (t_.get("r.cfg") or b"<missing>").decode("utf-8", "replace"), "expected": want_r.decode()})
+                break
         if a_ != b_:
             bad = sorted(k for k in set(a_) | set(b_) if a_.get(k) != b_.get(k))
             fails.append({"kind": "command line and directory API produce different content", "argv": cli_argv(ccfg, ".", "<out>"),
